@@ -41,6 +41,16 @@ func NewConnSniffer(conn net.Conn, timeout time.Duration) *ConnSniffer {
 // call-sites remain correct if ConnSniffer's internals are refactored.
 func (s *ConnSniffer) UnderlyingConn() net.Conn { return s.Conn }
 
+// CloseWrite passes a write-shutdown through to the wrapped connection so that
+// the relay can forward the peer's end of stream while the sniffer wraps the
+// client side.
+func (s *ConnSniffer) CloseWrite() error {
+	if wc, ok := s.Conn.(interface{ CloseWrite() error }); ok {
+		return wc.CloseWrite()
+	}
+	return nil
+}
+
 func (s *ConnSniffer) Read(p []byte) (n int, err error) {
 	return s.Sniffer.Read(p)
 }
